@@ -208,7 +208,7 @@ static const double K_EULER = 0.5;          // ExplicitEuler sanity row (h = 1e-
 
 int main(int argc, char** argv) {
     verif::Run run("C11", argc, argv);
-    run.setDeadline(1200, 7200);
+    run.setDeadline(1200, 3600);
     const bool th = run.thorough();
     const int valueSet = (int)(((run.seed % 3) + 3) % 3);
     const double T = 1.0; const int NREPORT = 10;
